@@ -392,32 +392,44 @@ theorem iface_result_is_number (t : Ty) (v : Val) (ht : t.isNumeric = true) (hv 
     (hw : ∀ t' c, v ≠ .foreign t' c) : ∃ x, convertResultNumber .iface v = .f64 x := by
   cases t <;> simp [Ty.isNumeric] at ht <;> cases v <;> simp_all [Val.ty, convertResultNumber, Ty.isInterface, numericOf]
 
-/-- **Numbers nested in a returned slice / array.** A result that is a Go slice or array of a numeric
-    element type (`[]int`, `[3]float32`, `[]time.Duration` through `named_numeric_result_exact` …) — whether
-    the result is declared with that type or as `interface{}` — is delivered as an ECAL list (`[]interface{}`)
-    in which every element is an ECAL number; slices of slices and maps are converted the same way
-    (`convertSeq` / `convertMap`). Not covered, by design of the code: a `[]interface{}` /
-    `map[interface{}]interface{}` result is an ECAL value already and is passed on as it is, whatever Go
-    numbers a function has put INTO it. -/
-theorem nested_numbers_delivered (static t : Ty) (xs : Vals) (ht : t.isNumeric = true)
-    (hty : ∀ v ∈ xs.toList, v.ty = some t ∧ ∀ t' c, v ≠ .foreign t' c) :
-    ∃ ys, convertResultNumber static (.seq t xs) = .elist ys ∧ (Val.elist ys).ty = some Ty.list ∧
+/-- **Known finding `nested-result-numbers`: numbers nested in a returned slice / array / map are NOT
+    delivered as ECAL numbers.** The code converts a result by the Kind of the result itself; a Go slice,
+    array or map of Go values (`[]int`, `[2]uint8`, `map[string]int`, …) — declared with that type or as
+    `interface{}` — reaches the ECAL program as it is: not an ECAL container at all (`l[0]`: "Variable l is
+    not a container", `len(l)` fails, `for x in l` silently does nothing), its elements Go integers. -/
+theorem nested_results_are_passed_raw (static t kt vt : Ty) (xs kvs : Vals) :
+    convertResultNumber static (.seq t xs) = .seq t xs ∧
+    convertResultNumber static (.gomap kt vt kvs) = .gomap kt vt kvs := by
+  simp [convertResultNumber, numericOf_seq, numericOf_gomap]
+
+/-- `func() []int { return []int{1, 2} }` through `Run`: the ECAL program gets the raw Go slice. -/
+example : run shape (fun _ _ => 0)
+    (.fn ⟨[], false, [.slice (.int .int)]⟩ (fun _ => .ret [.seq (.int .int) (.cons (.int .int 1) (.cons (.int .int 2) .nil))])) []
+    = .done (.one (.seq (.int .int) (.cons (.int .int 1) (.cons (.int .int 2) .nil)))) none := by decide
+
+/-- About the CANDIDATE repair only (`demandedResult` = what `fixes/C19-nested-result-numbers.patch` would
+    do; the patch is NOT applied because turning every slice into an ECAL list breaks Go→Go round trips
+    through ECAL that work today, e.g. a raw `[]string` result handed back to a `[]string` parameter): a
+    slice or array of a numeric element type would be delivered as an ECAL list in which every element is
+    an ECAL number. This is what the correspondence run reports as `spec=` on the known-finding cases. -/
+theorem candidate_repair_delivers_nested_numbers (static t : Ty) (xs : Vals) (ht : t.isNumeric = true)
+    (hty : ∀ v ∈ xs.toList, v.ty = some t ∧ (∀ t' c, v ≠ .foreign t' c) ∧
+      (∀ t' ys, v ≠ .seq t' ys) ∧ (∀ a b ys, v ≠ .gomap a b ys)) :
+    ∃ ys, demandedResult static (.seq t xs) = .elist ys ∧ (Val.elist ys).ty = some Ty.list ∧
       ys.toList.length = xs.toList.length ∧ ∀ y ∈ ys.toList, ∃ x, y = .f64 x := by
   have hne : t ≠ Ty.iface := by intro h; subst h; simp [Ty.isNumeric] at ht
-  refine ⟨convertSeq t xs, by simp [convertResultNumber, hne], rfl, by simp [convertSeq_toList], ?_⟩
+  refine ⟨demandedSeq t xs, by simp [demandedResult, hne], rfl, by simp [demandedSeq_toList], ?_⟩
   intro y hy
-  rw [convertSeq_toList] at hy
+  rw [demandedSeq_toList] at hy
   obtain ⟨v, hv, rfl⟩ := List.mem_map.mp hy
-  obtain ⟨h1, h2⟩ := hty v hv
+  obtain ⟨h1, h2, h3, h4⟩ := hty v hv
+  have : demandedResult t v = convertResultNumber t v := by
+    cases v <;> first | rfl | exact absurd rfl (h3 _ _) | exact absurd rfl (h4 _ _ _)
+  rw [this]
   exact numeric_result_is_number t v ht h1 h2
 
-example : convertResultNumber .iface (.seq (.int .int) (.cons (.int .int 1) (.cons (.int .int 2) .nil)))
+example : demandedResult .iface (.seq (.int .int) (.cons (.int .int 1) (.cons (.int .int 2) .nil)))
     = .elist (.cons (.f64 (.fin 1 0)) (.cons (.f64 (.fin 2 0)) .nil)) := by decide
-
-/-- `map[string][]int{"a": {1, 2}}` becomes the ECAL map `{"a": [1, 2]}`. -/
-example : convertResultNumber (.gmap .str (.slice (.int .int)))
-    (.gomap .str (.slice (.int .int)) (.cons (.str "s:61") (.cons (.seq (.int .int) (.cons (.int .int 1) (.cons (.int .int 2) .nil))) .nil)))
-    = .emapv (.cons (.str "s:61") (.cons (.elist (.cons (.f64 (.fin 1 0)) (.cons (.f64 (.fin 2 0)) .nil))) .nil)) := by decide
 
 /-- **Through `Run`, for every position of a multi-result.** When the call reaches a function without
     trailing error whose body returns `vals` (one per declared result), `Run` delivers
